@@ -143,8 +143,9 @@ PROPS = {
         "quick_runs": 12000, "thorough_runs": 150000, "seed": 5000001,
         "rule": "C05 histories: up to 3 incarnations (own worker count/policy, with or without entry function) x submit from main, "
                 "from tasks and from OS threads (also racing with wait/suspend), wait, suspend/resume (incl. redundant calls), "
-                "finalize from main or a task, stop, refused misuse calls from tasks; invalid steps are skipped by a reference state model.",
-        "required_probes": ["start", "stop", "wait", "suspend", "resume", "misuse_refused", "racing_submitter"],
+                "finalize from main or a task, stop (also entered before finalize: an OS thread then submits more work and finalizes), "
+                "refused misuse calls from tasks; invalid steps are skipped by a reference state model.",
+        "required_probes": ["start", "stop", "wait", "suspend", "resume", "misuse_refused", "racing_submitter", "stop_entered_before_finalize"],
     },
     "C06": {
         "quick_runs": 24000, "thorough_runs": 400000, "seed": 6000001,
